@@ -1,5 +1,21 @@
 """Per-property manifest entries; bin/mkmanifest writes MANIFEST.json from this."""
 CLAIMS = {
+ "C01": dict(
+   text="Coq theorem C01_sound: for every token store, validation context (any can-issue policy, checker, resolvers, parser), capability "
+        "descriptor (any readers and derivation rule), fuel and invocation, an authorization returned by the model of validator.Access "
+        "satisfies the declarative chain specification (ValidatorSpec.chain_ok/token_ok: invocation and every proof inside its time window "
+        "and signed by its stated issuer or authority/session backed; proof cited by and delegated to the citing issuer; ability/resource/"
+        "caveats resolved from a capability of the proof and accepted by Derives; chain ends where can_issue holds; checker accepted it); "
+        "C01_total / C01_no_chain give 'otherwise Unauthorized'. The model is tied to the code by differential execution of seeded random "
+        "worlds (chains of depth 0..5/7 with 13 defect kinds at every position, decoys, multi-capability tokens, wildcards, Ed25519+RSA, "
+        "two can-issue policies) through validator.Access: verdict, returned path, sequence of signature verifications, checker and "
+        "Derives argument logs must all equal the model's; ResolveAbility/ResolveResource/DefaultDerives/IsExpired/IsTooEarly are "
+        "additionally re-translated from the source and proved equal to the model.",
+   note="Symbolic signatures (the harness states which key signed each token's current fields; unforgeability of Ed25519/RSA assumed), "
+        "CIDs as identities (SHA-256 collision freedom), hypothesis Hres (the caller's proof resolver returns the delegation asked for), "
+        "model starts at decoded tokens (bytes: C07/C12/C13). Requires the fix commits listed in KNOWN_FINDINGS.txt. No axioms.",
+   technique="Coq proof (refinement: Access sound w.r.t. inductive chain specification, all worlds) + differential correspondence on seeded random delegation DAGs + translation ties",
+   ref="5/C01"),
  "C16": dict(
    text="Coq theorems (all strings, unbounded) characterise ResolveAbility / ResolveResource / DefaultDerives exactly as the property "
         "states (iff, plus range lemmas); the functions are re-translated from validator/capability.go to Gallina on every run and "
@@ -9,4 +25,21 @@ CLAIMS = {
         "translate a rewritten function, the exhaustive correspondence; harness observation. No axioms (Closed under the global context).",
    technique="Coq proof (iff characterisation, all strings) + Go->Gallina translation tie + exhaustive differential correspondence",
    ref="5/C16"),
+ "C20": dict(
+   text="Coq theorems (all header byte strings, all bodies, any Execute) give the decision table of server.Handle: content type not the "
+        "CAR type -> 415, Accept not admitting the CAR type or */* -> 406, undecodable body -> 400, each with an empty handler-call log; "
+        "acceptable and decodable -> 200 with the CAR content type; handler calls occur only for acceptable, decodable requests and are "
+        "exactly Execute's; 'admits' is characterised for all strings (iff: absent/empty, or some comma separated element is, whitespace "
+        "and ;parameters aside, the CAR type or */*), with uniqueness of the list splitting; client channel: non-200 -> HTTPError with that "
+        "status, response only for 200. carInbound.Accept and its helper are re-translated to Gallina on every run and proved equal to the "
+        "model (Tie_Accept2), and the whole of Handle is compared with the model on a 10 x 22 x 10 header/body product plus a seeded random "
+        "header grammar (600 quick / 20 000 thorough) through server.Request with call-counting service methods; the HTTP channel is swept "
+        "over statuses 101, 200..599, 600, 700, 999.",
+   note="Media types compared byte for byte (no case folding), parameters incl. q ignored, Content-Type with parameters is 415 (as the code). "
+        "Requires fix C20_accept (pinned tree: lists with */* answered 406, substring near-misses accepted, first Accept line only). "
+        "Trusted: Coq kernel; Go string primitives and http.Header.Get/Values as modelled; body classes as constructed by the harness "
+        "(cross-checked with request.Decode); Execute is a parameter; translator verif-extract or, when it cannot translate, the correspondence. "
+        "No axioms (Closed under the global context).",
+   technique="Coq proof (decision table + iff characterisation, all strings) + Go->Gallina translation tie + differential correspondence (product + random grammar + client status sweep)",
+   ref="5/C20"),
 }
